@@ -128,6 +128,12 @@ class C17(Check):
             want_over = [name] if (force is not None and supplied is not None and supplied != force) else []
             if o.overrides() != want_over:
                 acc.violation('C17|options|overrides', 'overrides() is %r, expected %r: %s' % (o.overrides(), want_over, what), case)
+            # the same Options object taken over by another rule: a later forced value replaces everything before it
+            for later in (v2, v1):
+                acc.evaluations += 1
+                ret2 = o.setopt(name, default=later, force=True)
+                if o.getopt(name) != later or ret2 != later or o.record()['force'].get(name) != later:
+                    acc.violation('C17|options|reforce', 'after %s, forcing %r gives getopt %r (setopt returned %r)' % (what, later, o.getopt(name), ret2), case)
             if len({x for x in (default, fil, cmd, force) if x is not None}) > 1:
                 acc.nontrivial_count += 1
         acc.sample({'k': 'opts', 'name': name, 'spelling': how, 'assignments': 81})
